@@ -71,6 +71,12 @@ where
       move |e| error(serial_error, e),
       move || complete(serial_complete),
     );
+    if !self.subscriber.is_subscribed() {
+      // the stream has already ended: an upstream observer created now is
+      // born ended, so that no source is subscribed on its behalf
+      observer.unsubscribe();
+      return observer;
+    }
     let o_unsub = observer.clone();
 
     let mut unsubscribers = self.unscribers.write().unwrap();
